@@ -100,3 +100,19 @@ def good_reads_module_constant(dims):
     cache = {}
     cache[tuple(dims)] = _LIMITS[0]
     return TT([np.eye(n).reshape(1, n, n, 1) for n in dims])
+
+
+def bad_collect(x, results=[]):
+    # R-f: a mutable default that is filled and handed out: the second call returns the results of the first one as well
+    results.append(x.copy())
+    return results
+
+
+def _good_collect_helper(x, results=[]):
+    # negative control: a private helper whose only call site passes the list never uses its default
+    results.append(x.copy())
+    return results
+
+
+def good_collect(x):
+    return _good_collect_helper(x, [])
